@@ -196,7 +196,7 @@ fn main() {
     }
     if std::env::args().nth(1).as_deref() == Some("c05-child") {
         let a: Vec<String> = std::env::args().skip(2).collect();
-        std::process::exit(rel::c05_child_main(a[0].parse().unwrap(), a[1].parse().unwrap(), a[2].parse().unwrap()));
+        std::process::exit(rel::c05_child_main(a[0].parse().unwrap(), a[1].parse().unwrap(), a[2].parse().unwrap(), a.get(3).and_then(|x| x.parse().ok()).unwrap_or(0)));
     }
     let args = parse_args();
     let started = Instant::now();
